@@ -303,6 +303,7 @@ func Bind(p *Probe, opts ...func(*Env)) *Env {
 		}
 	})
 	e.Schema = e.ES.Schema()
+	registerEnv(e)
 	return e
 }
 
@@ -672,6 +673,9 @@ func (e *Env) Build(plan Plan, v *Val, rt reflect.Type) reflect.Value {
 		return s
 	case KObject:
 		ot := e.Probe.ObjTypes[v.Type]
+		if ot.Kind() == reflect.Map {
+			return e.buildMapObject(plan, v)
+		}
 		ov := reflect.New(ot).Elem()
 		if f := ov.FieldByName("Vid"); f.IsValid() && f.Kind() == reflect.String {
 			f.SetString(v.Vid)
@@ -952,6 +956,12 @@ func (e *Env) Eval(plan Plan, object, vid, field, argsJSON string) (Fault, *Val,
 	}
 	def := e.Schema.Types[object]
 	fd := def.Fields.ForName(field)
+	if meta.Method && !meta.Resolver {
+		return e.evalMethod(plan, object, vid, field, argsJSON)
+	}
+	if e.isMapObject(object) && !meta.Resolver {
+		return FaultNone, e.evalMapField(plan, object, vid, field), false
+	}
 	if meta.Resolver {
 		k := Key{Object: object, Vid: vid, Field: field, Args: argsJSON}
 		if f := plan.Fault(k); f != FaultNone {
